@@ -92,7 +92,7 @@ func checkC07(c caseC07, rec *ev.Rec) *ev.Failure {
 			priorDecode("lzma", b.Stream, dc, []string{"trunc", "flip", "abandon"}[hs/3%3], int(200+hs%750))
 			rec.Class("after_earlier_reader")
 		}
-		r, err := lzma.ReaderConfig{DictCap: dc}.NewReader(bytes.NewReader(b.Stream))
+		r, err := lzma.ReaderConfig{DictCap: dc}.NewReader(sourceFor(b.Stream))
 		if err != nil {
 			return ev.Fail(fmt.Sprintf("NewReader(DictCap %d) rejects a valid %s stream (%s, %d bytes content): %v", dc, c.Src.Origin, mode, len(b.Content), err),
 				"side", "reader", "stage", "open", "mode", mode, "err", err.Error(), "n0", fmt.Sprint(len(b.Content) == 0))
